@@ -1443,6 +1443,9 @@ def wrong_kind_cases():
         ("concat(x, axis=0)", "variadic", "Var", lambda: op.concat(x, axis=0)),
         ("concat([x, 1], axis=0)", "variadic", "list", lambda: op.concat([x, 1], axis=0)),
         ("concat(5, axis=0)", "variadic", "int", lambda: op.concat(5, axis=0)),
+        ("concat(generator with an int, axis=0)", "variadic", "generator", lambda: op.concat((v for v in [x, 1]), axis=0)),
+        ("max(iterator with a str)", "variadic", "iterator", lambda: op.max(iter([x, "a"]))),
+        ("concat(tuple with None, axis=0)", "variadic", "tuple", lambda: op.concat((x, None), axis=0)),
     ]
     if initializer is not None:
         calls += [("initializer(5)", "AttrTensor", "int", lambda: initializer(5)),
